@@ -165,9 +165,10 @@ func (x *Exec) callValue(st *State, fr *Frame, fnv Value, args []Value, dest ssa
 		x.StubsHit["noop:"+pp]++
 		return deliver(x.noopResults(fn.Signature, args))
 	}
-	if len(fn.Blocks) == 0 {
-		x.buildFn(fn)
-	}
+	// (*ssa.Package).Build is idempotent and blocks concurrent callers until the
+	// package is complete, so it is called before the first look at fn.Blocks:
+	// harnesses run in parallel goroutines over one shared SSA program
+	x.buildFn(fn)
 	if len(fn.Blocks) == 0 {
 		panic(x.unsupported("no body / intrinsic for " + name))
 	}
@@ -746,9 +747,7 @@ func (x *Exec) ensureGlobal(st *State, fr *Frame, g *ssa.Global) bool {
 		return false
 	}
 	// harness-package globals written by the harness itself start as zero
-	buildMu.Lock()
 	g.Pkg.Build()
-	buildMu.Unlock()
 	initFn := g.Pkg.Func("init")
 	if initFn == nil || len(initFn.Blocks) == 0 {
 		return false
@@ -894,8 +893,10 @@ var buildMu sync.Mutex
 // buildFn builds the SSA of the package that owns fn (lazily; building the
 // whole import graph up front costs half a minute for the daemon package).
 func (x *Exec) buildFn(fn *ssa.Function) {
-	buildMu.Lock()
-	defer buildMu.Unlock()
+	if x.built[fn] {
+		return
+	}
+	x.built[fn] = true
 	if fn.Pkg != nil {
 		fn.Pkg.Build()
 		return
